@@ -5,11 +5,14 @@ From LI Require Import Base.StrOps.
 From LI Require Import Parser.Order.
 Open Scope N_scope.
 
-(** implementation result of one run on one unit: the observables, or an error code
-    (1 duplicate key, 2 ExplicitDefaultInDefault, 3 SubKeyMissmatch, anything else = not modelled) *)
-Definition result := (out + N)%type.
+(** implementation result of one run on one unit: the observables, or an error: code (1 duplicate key,
+    2 ExplicitDefaultInDefault, 3 SubKeyMissmatch, 4 RecursiveForeignKey, 5 MissingForeignKey, 6 InvalidForeignKey, anything
+    else = not modelled) with, for the foreign-key errors, the locale index, the key path and the target the diagnostic names *)
+Definition errinfo := (N * N * path * path)%type.
+Definition result := (out + errinfo)%type.
 
 Record case := mk_case {
+  c_names : list str;               (* the locales' names, default first (the registered foreign keys are walked by name) *)
   c_A : list (list (str * jv));     (* the unit's files (default locale first), members in file order A *)
   c_B : list (list (str * jv));     (* the same content, members in file order B (possibly another file format) *)
   c_implA : result;
@@ -21,7 +24,6 @@ Fixpoint list_eqb {A} (eqb : A -> A -> bool) (x y : list A) : bool :=
   | a :: r, b :: t => eqb a b && list_eqb eqb r t
   | _, _ => false
   end.
-Definition path_eqb := list_eqb str_eqb.
 Definition entry_eqb (a b : path * N) : bool := path_eqb (fst a) (fst b) && (snd a =? snd b).
 Definition warning_eqb (a b : warning) : bool :=
   match a, b with
@@ -33,17 +35,29 @@ Definition out_eqb (a b : out) : bool :=
   && list_eqb (list_eqb str_eqb) (o_tables a) (o_tables b)
   && list_eqb warning_eqb (o_warnings a) (o_warnings b).
 
-Definition err_code (e : err) : N :=
-  match e with EDuplicateKey => 1 | EExplicitDefaultInDefault => 2 | ESubKeyMissmatch => 3 end.
-Definition model_result (files : list (list (str * jv))) : result :=
-  match run_unit files with inl o => inl o | inr e => inr (err_code e) end.
+Definition err_info (e : err) : errinfo :=
+  match e with
+  | EDuplicateKey => (1, 0, [], [])
+  | EExplicitDefaultInDefault => (2, 0, [], [])
+  | ESubKeyMissmatch => (3, 0, [], [])
+  | ERecursiveFK li p => (4, li, p, [])
+  | EMissingFK li p t => (5, li, p, t)
+  | EInvalidFK li p t => (6, li, p, t)
+  | EUnmodelledFK => (99, 0, [], [])
+  end.
+Definition model_result (names : list str) (files : list (list (str * jv))) : result :=
+  match run_unit names files with inl o => inl o | inr e => inr (err_info e) end.
+Definition errinfo_eqb (a b : errinfo) : bool :=
+  let '(ca, la, pa, ta) := a in let '(cb, lb, pb, tb) := b in
+  (ca =? cb) && (la =? lb) && path_eqb pa pb && path_eqb ta tb.
 Definition result_eqb (a b : result) : bool :=
   match a, b with
   | inl x, inl y => out_eqb x y
-  | inr x, inr y => x =? y
+  | inr x, inr y => errinfo_eqb x y
   | _, _ => false
   end.
-Definition modelled (r : result) : bool := match r with inl _ => true | inr c => (1 <=? c) && (c <=? 3) end.
+Definition code_of (r : result) : N := match r with inl _ => 0 | inr (c, _, _, _) => c end.
+Definition modelled (r : result) : bool := match r with inl _ => true | inr (c, _, _, _) => (1 <=? c) && (c <=? 6) end.
 
 Definition same_content (a b : list (list (str * jv))) : bool :=
   list_eqb (fun x y => jv_eqb (JObj x) (JObj y)) a b.
@@ -58,5 +72,6 @@ Definition check (c : case) : N :=
   if negb (same_content (c_A c) (c_B c)) then 1
   else if negb (spec_C10 (c_A c) (c_B c) (c_implA c) (c_implB c)) then 3
   else if negb (modelled (c_implA c) && modelled (c_implB c)) then 1
-  else if negb (result_eqb (model_result (c_A c)) (c_implA c) && result_eqb (model_result (c_B c)) (c_implB c)) then 2
+  else if negb (modelled (model_result (c_names c) (c_A c))) then 1
+  else if negb (result_eqb (model_result (c_names c) (c_A c)) (c_implA c) && result_eqb (model_result (c_names c) (c_B c)) (c_implB c)) then 2
   else 0.
